@@ -326,6 +326,11 @@ func nilRecvRule(w *World, r *Report, funcs []*FuncInfo) {
 			if !mayNil || strings.Contains(path, "[*]") {
 				continue
 			}
+			if fi.Recv != nil {
+				if ft := declaredTypeAt(fi.Recv, path); ft != nil {
+					t = ft
+				}
+			}
 			if t != nil {
 				switch t.Underlying().(type) {
 				case *types.Interface, *types.Pointer:
